@@ -560,11 +560,16 @@ pub enum Disagree {
 }
 
 pub fn compare(actual: &Result<Value, reval::Error>, model: &MRes) -> Option<Disagree> {
+    compare_with(actual, model, false)
+}
+
+/// `strict_scale`: decimals must agree in mantissa and scale (used where values are echoed, not computed)
+pub fn compare_with(actual: &Result<Value, reval::Error>, model: &MRes, strict_scale: bool) -> Option<Disagree> {
     use reval::Error as R;
     match (actual, model) {
         (_, Err(MErr::Ambiguous)) => None,
         (Ok(a), Ok(m)) => {
-            if same_value(a, m, false) {
+            if same_value(a, m, strict_scale) {
                 None
             } else {
                 Some(Disagree::WrongValue)
